@@ -44,17 +44,25 @@ func c06Enumerate(tier string, seed int64, emit func(string, any)) {
 	if !thorough {
 		seeds = seeds[:4]
 	}
-	for _, p := range c06Programs {
-		for _, s := range seeds {
+	for pi, p := range c06Programs {
+		ps := seeds
+		if !thorough && pi >= len(c06Programs)-5 {
+			ps = seeds[:2] // the array-random-method programs added later: two seeds in the quick tier
+		}
+		for _, s := range ps {
 			emit("interference/1 action anywhere", c06Case{Kind: "interfere", Src: p, Seed: s, Dev: 1})
-			emit("interference/<=2 actions in the first 28 boundaries", c06Case{Kind: "interfere", Src: p, Seed: s, Dev: 2})
+			if thorough || s == 1 { // quick: one seed for the two-action placements (the placement, not the seed, is what varies)
+				emit("interference/<=2 actions in the first 28 boundaries", c06Case{Kind: "interfere", Src: p, Seed: s, Dev: 2})
+			}
 			if thorough && len(p) <= 8 {
 				emit("interference/<=3 actions", c06Case{Kind: "interfere", Src: p, Seed: s, Dev: 3})
 			}
 		}
 		emit("interference/default-sides-expr", c06Case{Kind: "interfere", Src: p, Seed: 1, Def: "d4 + 2", Dev: 1})
-		for _, s := range []int64{-1, -2, -3} { // all-zero, all-ones and undecodable seeds
-			emit("interference/special seeds", c06Case{Kind: "interfere", Src: p, Seed: s, Dev: 1})
+		for si, s := range []int64{-1, -2, -3} { // all-zero, all-ones and undecodable seeds
+			if thorough || (len(p)+si)%3 == 0 {
+				emit("interference/special seeds", c06Case{Kind: "interfere", Src: p, Seed: s, Dev: 1})
+			}
 		}
 	}
 	for _, s := range seeds[:2] {
